@@ -85,8 +85,14 @@ reg("C15", "proof", ["contracts.stress:Stress", "contracts.density:ReducedDM", "
     extra_assumptions=["density routines replaced by their contracts (proved under C06, re-discharged here)",
                        "alpha, beta: generic symbolic path covers every real value outside the special-cased constants, which are separate shapes"])
 
-reg("C14", "proof", ["contracts.esp:ESP"], ["gbasis.evals.electrostatic_potential.electrostatic_potential"],
-    extra_assumptions=["point_charge_integral replaced by its contract (C03)", "mask / case analysis by z3 (QF_NRA with square-root atoms)"])
+reg("C14", "proof", ["contracts.esp:ESP",
+    # the callee chain that carries the electronic part (contract of point_charge_integral = C03), re-discharged here
+    "contracts.coulomb:OneElecKernel", "contracts.coulomb:PointChargeBlock", "contracts.coulomb:PointChargeInline", "contracts.coulomb:BoysFunction"],
+    ["gbasis.evals.electrostatic_potential.electrostatic_potential", "gbasis.integrals.point_charge.point_charge_integral",
+     "gbasis.integrals.point_charge.PointChargeIntegral.construct_array_contraction", "gbasis.integrals._one_elec_int._compute_one_elec_integrals"],
+    extra_assumptions=["inside ESP, point_charge_integral is replaced by its contract; that contract (C03) is discharged in the same check on the real kernels",
+                       "mask / case analysis by z3 (QF_NRA with square-root atoms)",
+                       "PointChargeIntegral.boys_func replaced by a symbolic Boys function (atoms F_m(T)); the real implementation by the bounded stand-in only"])
 
 reg("C20", "proof", ["contracts.screening:IsScreened", "contracts.screening:IsScreenedAnyK", "contracts.screening:ScreeningLemmas", "contracts.screening:OverlapScreenedBlock",
     "contracts.assembly:TwoSymm", "contracts.dispatch:Dispatch"],
